@@ -61,7 +61,9 @@ CLAIMED = {
               "parameter, the error codes (-32602 / -32601). Full soundness is refuted in Coq (C19_sound_refuted = known "
               "finding F13). The binding rule itself (py_bind) is validated against the ACTUAL Python call on every case. "
               "Correspondence exhaustive over all well-formed signatures up to 3 (quick) / 4 (thorough) parameters x all call "
-              "shapes, for plain functions, bound methods and partials."),
+              "shapes (named calls also with null / falsy values), for plain functions, bound methods and partials. jsonrpc.handler_invocation "
+              "itself is TRANSLATED from the Python source on every run into a list of decisions; an interpreter runs it and a theorem "
+              "shows that for every signature and call it gives what the model's handler_invocation gives (C19_invocation_from_source)."),
         note=TB + "inspect.signature is trusted for methods/partials; py_bind covers positional-only and named-only calls (the only shapes JSON-RPC produces).",
         technique="Coq proof (list lemmas over filter/existsb) + exhaustive vm_compute correspondence incl. the real call as binding oracle",
         ref='6/C19'),
@@ -250,7 +252,10 @@ CLAIMED = {
               "releases every blocked writer; a writer blocked for max_send_delay aborts the connection and gets TaskTimeout; "
               "connection loss releases all blocked writers, which then write nothing. Whether a woken writer re-checks the "
               "gate, and that a framed message of any size (0 bytes to 1 MiB) is handed to the socket in one write call, is probed "
-              "on the running RSTransport and USTransport on every run. The property was FALSE on the original "
+              "on the running RSTransport and USTransport on every run. pause_writing, resume_writing, connection_lost and write() of both "
+              "transport classes are TRANSLATED from the Python source on every run into statement lists; with asyncio.Event's meaning "
+              "written down once, theorems show that the model's labels are exactly the runs of those statements and that the model run "
+              "over ANY label sequence is the run of the source's statements (C15_model_from_source). The property was FALSE on the original "
               "tree (F14): repaired by a fix: commit. Correspondence: scenarios on a real session over both transport classes "
               "and a fake asyncio transport with a high-water mark (wire order, blind writes, time-outs, reading flag)."),
         note=TB + "Partial: asyncio's Event waiter order and the real transports' buffering are trusted; timer ties (a stall ending exactly when another event is due) are avoided by the generator.",
